@@ -295,7 +295,20 @@ func (s *Sim) Adopt(name string) {
 	id := goid()
 	s.lock()
 	if s.taskName(id) == "" {
-		s.taskSet(id, name)
+		// a goroutine of the code under test that carries a task name (the
+		// handler loop): its successor (the loop is restarted after a handler
+		// fault) takes the name over
+		took := false
+		for i := range s.tasks {
+			if s.tasks[i].used && s.tasks[i].name == name {
+				s.tasks[i].goid = id
+				took = true
+				break
+			}
+		}
+		if !took {
+			s.taskSet(id, name)
+		}
 	}
 	s.unlock()
 }
